@@ -37,12 +37,18 @@ var simNow atomic.Int64
 var simAuto atomic.Bool
 var simReads atomic.Int64
 
+// simVirtual: the clock follows time.Now (virtual time inside a synctest bubble).
+var simVirtual atomic.Bool
+
 const baseTimeMs = 1_750_000_000_000
 
 func init() {
 	simNow.Store(baseTimeMs)
 	ctlog.VerifSetTimeNowUnixMilli(func() int64 {
 		simReads.Add(1)
+		if simVirtual.Load() {
+			return time.Now().UnixMilli()
+		}
 		if simAuto.Load() {
 			return simNow.Add(1)
 		}
